@@ -297,15 +297,19 @@ def validate_sharded(module, cfg, lines, tag, shards=None, timeout=900, xmx='3g'
         raise Infra('empty trace for ' + tag)
     shards = shards or min(NCPU, max(1, len(lines) // 4))
     buckets = [[] for _ in range(shards)]
+    bgroups = [[] for _ in range(shards)]
     if group is None:
         for i, l in enumerate(lines):
             buckets[i % shards].append(l)
+            bgroups[i % shards].append(i)
     else:
         order = {}
         for g in group:
             order.setdefault(g, len(order))
         for l, g in zip(lines, group):
             buckets[order[g] % shards].append(l)
+            bgroups[order[g] % shards].append(order[g])
+    bgroups = [g for b, g in zip(buckets, bgroups) if b]
     buckets = [b for b in buckets if b]
     files = []
     for i, b in enumerate(buckets):
@@ -319,7 +323,7 @@ def validate_sharded(module, cfg, lines, tag, shards=None, timeout=900, xmx='3g'
         """validate one shard; after a rejection continue behind the rejected line (bounded), so
         that the rest of the trace is examined too (only valid for traces of independent lines;
         stateful traces pass independent=False)"""
-        p, b = args
+        p, b, gids = args
         out = {'accepted': 0, 'states': 0, 'transitions': 0, 'rejected': [], 'wall': 0.0, 'prints': []}
         start = 0
         attempt = 0
@@ -348,12 +352,20 @@ def validate_sharded(module, cfg, lines, tag, shards=None, timeout=900, xmx='3g'
                                     'env': {k: v for k, v in (env or {}).items() if k != 'TRACE'},
                                     'trace': ctx})
             attempt += 1
-            if not independent or attempt >= max_rejects:
+            if attempt >= max_rejects or bad_i >= len(b):
                 break
-            start = bad_i + 1
+            if independent:
+                start = bad_i + 1
+            else:
+                # lines of one group depend on each other: resume with the next group of this shard (each group starts from the
+                # trace specification's initial state, see the callers), so that the rest of the shard is still examined
+                nxt = [j for j in range(bad_i + 1, len(b)) if gids[j] != gids[bad_i]]
+                if group is None or not nxt:
+                    break
+                start = nxt[0]
         return out
     with ThreadPoolExecutor(len(files)) as ex:
-        outs = list(ex.map(one, list(zip(files, buckets))))
+        outs = list(ex.map(one, list(zip(files, buckets, bgroups))))
     for o in outs:
         res['accepted'] += o['accepted']
         res['states'] += o['states']
